@@ -35,8 +35,13 @@ def cases(tier, seed):
         xl0 = -xls * (nX - 1) if xl0 == 'to0' else xl0
         src = conv.src_desc(rng, '3d', (nI, nX, nZ), il=[il0, ils], xl=[xl0, xls], fmt=5, valkind='smooth', dt=rng.choice([4000, 2000, 1000]), t0=rng.choice([0, 8, -8, -4]),
                             hdr={'seed': rng.randrange(1 << 20), 'nfields': rng.randint(1, 3), 'inside': True}, interval_hdr=[None, None, 'bin-zero', 'bin-differs', 'trace-zero'][i % 5])
-        out.append({'id': 'emu:%d:il%+d:xl%+d' % (i, ils, xls), 'src': src, 'nexpr': 150 if tier == 'quick' else 500, 'rate': rng.choice([16, 8, 4]),
-                    'bs': rng.choice([[4, 4, -1], [4, 4, -1], [8, 8, -1]]), 'cost': 2})
+        rate_, bs_ = rng.choice([16, 8, 4]), rng.choice([[4, 4, -1], [4, 4, -1], [8, 8, -1]])
+        if i % 5 == 3:
+            # traces longer than one disk block of the default layout (depth slices beyond the first block)
+            src['shape'] = [src['shape'][0], src['shape'][1], 140]
+            rate_, bs_ = 16, [4, 4, -1]
+        out.append({'id': 'emu:%d:il%+d:xl%+d' % (i, ils, xls), 'src': src, 'nexpr': 150 if tier == 'quick' else 500, 'rate': rate_,
+                    'bs': bs_, 'cost': 2})
     return out
 
 
